@@ -31,9 +31,9 @@ ASSUMPTIONS = [
     "bases as sorted expanded strings, refusals by exception type",
 ]
 TIMEOUT = {"quick": 150, "thorough": 400}
-DEADLINE = {"quick": 130, "thorough": 1700}
-MIN_DECIDING = {"quick": 12, "thorough": 120}
-NCASES = {"quick": 36, "thorough": 700}
+DEADLINE = {"quick": 100, "thorough": 1700}
+MIN_DECIDING = {"quick": 8, "thorough": 120}
+NCASES = {"quick": 16, "thorough": 700}
 ROOT = os.path.dirname(os.path.dirname(os.path.dirname(os.path.abspath(__file__))))
 
 FUNC_PROG = "x = 0\ny = 0\nwhile true:\n    u = Normal(0, 1)\n    s = Sin(u)\n    y = y + s*u\n    x = x + u**2\nend\n"
@@ -157,7 +157,7 @@ def run_case(case, tier):
     A = case["target"]
     res = {"fingerprint": K.fingerprint(A["text"], A["goals"], [o["id"] for o in case["others"]]), "features": case["features"],
            "events": {}, "violations": [], "comparisons": 0, "refusals": [], "extra": {}}
-    per = 40 if tier == "quick" else 90
+    per = 30 if tier == "quick" else 90
     ref, err = run_jobs([A], 0, per)
     if ref is None:
         res.update(verdict="inconclusive", reason="reference-" + err.split(":")[0])
